@@ -30,8 +30,8 @@ def cfgOf (tok : String) : Option Cfg :=
     | none => none
   else
     match ty with
-    | "i64" | "i32" | "i128" => some {}
-    | "u64" | "u32" | "usize" => some { unsigned := true }
+    | "i64" | "i32" | "i128" | "i16" | "i8" | "isize" => some {}
+    | "u64" | "u32" | "usize" | "u16" | "u8" | "u128" => some { unsigned := true }
     | "f64" | "f32" => some { halfExact := true }
     | _ => none
 
@@ -272,6 +272,8 @@ def parseCase (toks : Array String) (pos : Nat) : Option (Cfg × Array Int × Ar
 `many best|first <pool> <k> <case>*k` – k calls at once in one pool (each predicted alone);
 `twice best|first <case A> <case B>` – the same algorithm value and the same array buffer used
 for two successive calls (the model is a function of the input, so it just runs both).
+`loads <case>` – `compute_parts_load` alone (`1 + max id` parts), plain weight types only, handed
+over as `vec` / `cloned` / `map` (which the result does not depend on); out: `loads <l…>`.
 (weights are integers in every type, `-0` is the float -0.0 – a zero; `threads` is the rayon pool size, which the model – like
 the code's result – does not depend on). -/
 def handle (toks : List String) : String :=
@@ -292,6 +294,19 @@ def handle (toks : List String) : String :=
       let r1 ← runOne algo c1 w1 i1
       let r2 ← runOne algo c2 w2 i2
       pure (r1 ++ " ;; " ++ r2)) with
+    | none => "bad-op"
+    | some s => s
+  | some "loads" =>
+    match (do
+      let tok ← t[1]?
+      let parts := tok.splitOn "@"
+      if (parts.headD "").startsWith "f64e" then none
+      if !(["vec", "cloned", "map"].contains (parts.getD 1 "vec")) || parts.length > 2 then none
+      if t.any (fun x => x == "-0") then none
+      let (_, ws, ids, p) ← parseCase t 1
+      if p ≠ t.size then none
+      if ws.size ≠ ids.size then none
+      pure ("loads " ++ joinInts (loadsA ws ids (partCountA ids)).toList)) with
     | none => "bad-op"
     | some s => s
   | some "many" =>
